@@ -72,12 +72,14 @@ HMMVal(e, x) == LET b == Beta(e, x, 1) IN SumTo([z \in 1..e.K |-> e.pi[z] * b[z]
 
 FFVal(e, x) == ProdTo([v \in 1..Len(e.shape) |-> e.P[v][x[v] + 1]], Len(e.shape))
 
-(* propositional formula given as a DAG: nodes[i] = [t in {"lit","nlit","and","or"}, v, ins] *)
+(* propositional formula given as a DAG: nodes[i] = [t in {"lit","nlit","top","bot","and","or"}, v, ins] *)
 RECURSIVE Holds(_, _, _)
 Holds(e, x, i) ==
   LET n == e.nodes[i] IN
   CASE n.t = "lit" -> x[n.v + 1] = 1
     [] n.t = "nlit" -> x[n.v + 1] = 0
+    [] n.t = "top" -> TRUE
+    [] n.t = "bot" -> FALSE
     [] n.t = "and" -> \A k \in 1..Len(n.ins) : Holds(e, x, n.ins[k])
     [] n.t = "or" -> \E k \in 1..Len(n.ins) : Holds(e, x, n.ins[k])
 LogicVal(e, x) == IF Holds(e, x, e.root) THEN 1 ELSE 0
